@@ -46,6 +46,38 @@ pub struct Script {
     ready_err: bool,
     call_pend: u8,
     call_err: bool,
+    /// after the first Ready(Ok): 0 = stays ready, 1 = answers Pending once more, 2 = answers
+    /// Err once (readiness may regress between two polls without a call in between)
+    regress: u8,
+}
+
+/// Readiness state of a scripted leaf; `leaf_ready_step` is shared by the real leaf and the
+/// reference interpreter.
+#[derive(Clone, Copy, Debug, Default, PartialEq, Eq)]
+struct LeafReady {
+    pendings: u8,
+    err_reported: bool,
+    /// 0 = never answered Ready(Ok), 1 = answered it, 2 = regression delivered
+    stage: u8,
+}
+
+fn leaf_ready_step(s: Script, st: &mut LeafReady, leaf: usize) -> R {
+    if st.pendings < s.ready_pend {
+        st.pendings += 1;
+        return R::Pend;
+    }
+    if s.ready_err && !st.err_reported {
+        st.err_reported = true;
+        return R::Err(ready_err_code(leaf));
+    }
+    if s.regress != 0 && st.stage == 1 {
+        st.stage = 2;
+        return if s.regress == 1 { R::Pend } else { R::Err(ready_err_code(leaf) + 500) };
+    }
+    if st.stage == 0 {
+        st.stage = 1;
+    }
+    R::Ok(0)
 }
 
 #[derive(Clone, Copy, Debug, Default, PartialEq, Eq)]
@@ -85,8 +117,7 @@ struct Env {
     round: Cell<u32>,
     /// entities whose most recent answer was Pending: stored waker and the round of that answer
     pending: RefCell<BTreeMap<Key, (Waker, u32)>>,
-    ready_polls: RefCell<BTreeMap<usize, u8>>,
-    ready_errs_reported: RefCell<BTreeMap<usize, bool>>,
+    ready_state: RefCell<BTreeMap<usize, LeafReady>>,
     calls: RefCell<BTreeMap<usize, u32>>,
     /// leaves whose response also carries the ordinal of the call (k-th request they received)
     order_sensitive: RefCell<std::collections::BTreeSet<usize>>,
@@ -104,8 +135,7 @@ impl Env {
             log: RefCell::new(vec![]),
             round: Cell::new(0),
             pending: RefCell::new(BTreeMap::new()),
-            ready_polls: RefCell::new(BTreeMap::new()),
-            ready_errs_reported: RefCell::new(BTreeMap::new()),
+            ready_state: RefCell::new(BTreeMap::new()),
             calls: RefCell::new(BTreeMap::new()),
             order_sensitive: RefCell::new(Default::default()),
             news: RefCell::new(BTreeMap::new()),
@@ -168,24 +198,25 @@ impl Service<u64> for LeafSvc {
     fn poll_ready(&self, cx: &mut Context<'_>) -> Poll<Result<(), u64>> {
         let s = self.env.script(self.leaf);
         let round = self.env.round.get();
-        let mut polls = self.env.ready_polls.borrow_mut();
-        let n = polls.entry(self.leaf).or_insert(0);
-        if *n < s.ready_pend {
-            *n += 1;
-            self.env.park(Key::Ready(self.leaf), cx);
-            self.env.ev(Ev::Ready { leaf: self.leaf, round, res: R::Pend });
-            return Poll::Pending;
+        let res = {
+            let mut st = self.env.ready_state.borrow_mut();
+            leaf_ready_step(s, st.entry(self.leaf).or_default(), self.leaf)
+        };
+        self.env.ev(Ev::Ready { leaf: self.leaf, round, res });
+        match res {
+            R::Pend => {
+                self.env.park(Key::Ready(self.leaf), cx);
+                Poll::Pending
+            }
+            R::Err(e) => {
+                self.env.unpark(Key::Ready(self.leaf));
+                Poll::Ready(Err(e))
+            }
+            R::Ok(_) => {
+                self.env.unpark(Key::Ready(self.leaf));
+                Poll::Ready(Ok(()))
+            }
         }
-        self.env.unpark(Key::Ready(self.leaf));
-        let mut rep = self.env.ready_errs_reported.borrow_mut();
-        if s.ready_err && !*rep.entry(self.leaf).or_insert(false) {
-            rep.insert(self.leaf, true);
-            let e = ready_err_code(self.leaf);
-            self.env.ev(Ev::Ready { leaf: self.leaf, round, res: R::Err(e) });
-            return Poll::Ready(Err(e));
-        }
-        self.env.ev(Ev::Ready { leaf: self.leaf, round, res: R::Ok(0) });
-        Poll::Ready(Ok(()))
     }
 
     fn call(&self, req: u64) -> LeafFut {
@@ -570,11 +601,13 @@ struct Driven {
 }
 
 /// Drives one service: poll_ready rounds (fresh waker each) until Ready, then call + poll rounds.
-fn drive_service(svc: &Svc, t: &T, env: &Rc<Env>, req: u64, check_c12: bool) -> Result<Driven, Bad> {
+fn drive_service(svc: &Svc, t: &T, env: &Rc<Env>, req: u64, check_c12: bool, check_readiness_composition: bool) -> Result<Driven, Bad> {
     let max_rounds = 4 * 3 + 8;
     let mut ready_rounds = 0;
     let mut leaves = vec![];
     t.leaves(&mut leaves);
+    // readiness is asked again after the first Ready(Ok) when a leaf's readiness may regress
+    let mut confirmations = if leaves.iter().any(|l| env.script(*l).regress != 0) { 2 } else { 0 };
     loop {
         let round = env.round.get() + 1;
         env.round.set(round);
@@ -583,6 +616,29 @@ fn drive_service(svc: &Svc, t: &T, env: &Rc<Env>, req: u64, check_c12: bool) -> 
         let waker = w.waker();
         let mut cx = Context::from_waker(&waker);
         let res = svc.poll_ready(&mut cx);
+        if !check_c12 && check_readiness_composition {
+            // C11: the answer is the composition of the answers the leaves gave in this very poll
+            // (whichever leaves were asked, in whatever order): an error if one of them erred,
+            // else Pending if one is pending, else ready - and ready only if all were asked
+            let log = env.log.borrow();
+            let answers: Vec<(usize, R)> = log.iter().filter_map(|e| match e { Ev::Ready { leaf, round: r, res } if *r == round => Some((*leaf, *res)), _ => None }).collect();
+            let got = match &res {
+                Poll::Pending => R::Pend,
+                Poll::Ready(Ok(())) => R::Ok(0),
+                Poll::Ready(Err(e)) => R::Err(*e),
+            };
+            let errs: Vec<u64> = answers.iter().filter_map(|(l, r)| if let R::Err(e) = r { t.map_ready_err(*l, *e) } else { None }).collect();
+            let consistent = if !errs.is_empty() {
+                matches!(got, R::Err(e) if errs.contains(&e))
+            } else if answers.iter().any(|(_, r)| *r == R::Pend) {
+                got == R::Pend
+            } else {
+                got == R::Ok(0) && leaves.iter().all(|l| answers.iter().any(|(a, _)| a == l))
+            };
+            if !consistent {
+                return Err(bad("readiness:not-the-composition-of-the-leaves-answers", format!("poll_ready number {ready_rounds} of the combined service answered {:?}; the leaves' answers in that poll were {:?} (leaves of the tree: {:?})", got, answers, leaves)));
+            }
+        }
         // answers given by leaves in this round
         let log = env.log.borrow();
         let this_round: Vec<&Ev> = log.iter().filter(|e| matches!(e, Ev::Ready { round: r, .. } if *r == round)).collect();
@@ -638,7 +694,17 @@ fn drive_service(svc: &Svc, t: &T, env: &Rc<Env>, req: u64, check_c12: bool) -> 
                             Some(R::Err(e)) => return Err(bad("poll_ready:ready-after-inner-error", format!("poll_ready = Ready(Ok) while leaf {l} reported Err({e})"))),
                             None => return Err(bad("poll_ready:ready-without-asking-inner", format!("poll_ready = Ready(Ok) but leaf {l} was never asked"))),
                         }
+                        // ... and that answer was given in this very poll: readiness is established
+                        // by asking, an earlier answer says nothing about now
+                        if !this_round.iter().any(|e| matches!(e, Ev::Ready { leaf, .. } if leaf == l)) {
+                            return Err(bad("poll_ready:ready-without-asking-inner-in-this-poll", format!("poll_ready = Ready(Ok) in round {round} without asking leaf {l} in this poll (its last answer is from an earlier one)")));
+                        }
                     }
+                }
+                if confirmations > 0 {
+                    confirmations -= 1;
+                    drop(log);
+                    continue;
                 }
                 break;
             }
@@ -782,10 +848,10 @@ struct SvcCase {
 }
 
 fn script_json(s: &Script) -> Value {
-    json!([s.ready_pend, s.ready_err, s.call_pend, s.call_err])
+    json!([s.ready_pend, s.ready_err, s.call_pend, s.call_err, s.regress])
 }
 fn script_from(v: &Value) -> Script {
-    Script { ready_pend: v[0].as_u64().unwrap() as u8, ready_err: v[1].as_bool().unwrap(), call_pend: v[2].as_u64().unwrap() as u8, call_err: v[3].as_bool().unwrap() }
+    Script { ready_pend: v[0].as_u64().unwrap() as u8, ready_err: v[1].as_bool().unwrap(), call_pend: v[2].as_u64().unwrap() as u8, call_err: v[3].as_bool().unwrap(), regress: v.get(4).and_then(|x| x.as_u64()).unwrap_or(0) as u8 }
 }
 
 impl SvcCase {
@@ -813,7 +879,7 @@ fn check_service_case(c: &SvcCase, c12: bool, verbose: bool) -> Result<SvcStats,
 
 fn check_service_case_inner(c: &SvcCase, c12: bool, verbose: bool, env: &Rc<Env>, svc: &Svc) -> Result<SvcStats, Bad> {
     let svc = svc;
-    let driven = mcutil::quiet_catch((|| drive_service(svc, &c.tree, env, c.req, c12)));
+    let driven = mcutil::quiet_catch((|| drive_service(svc, &c.tree, env, c.req, c12, true)));
     if verbose {
         for e in env.log.borrow().iter() {
             println!("  {:?}", e);
@@ -1396,7 +1462,7 @@ fn check_factory_case_inner(c: &FacCase, c12: bool, verbose: bool, env: &Rc<Env>
     if let (Ok(svc), Ok(tree)) = (&got, &want) {
         // the built service must be the reference composition
         let before = env.log.borrow().len();
-        let driven = mcutil::quiet_catch((|| drive_service(svc, tree, &env, c.req, false)));
+        let driven = mcutil::quiet_catch((|| drive_service(svc, tree, &env, c.req, false, false)));
         if let Some(b) = poll_after_done(&env) {
             return if c12 { Err(b) } else { Ok(stats) };
         }
@@ -1469,7 +1535,7 @@ fn full_options() -> Vec<Script> {
         for re in [false, true] {
             for cp in 0..=2u8 {
                 for ce in [false, true] {
-                    let s = Script { ready_pend: rp, ready_err: re, call_pend: cp, call_err: ce };
+                    let s = Script { ready_pend: rp, ready_err: re, call_pend: cp, call_err: ce, regress: 0 };
                     if s != Script::default() {
                         v.push(s);
                     }
@@ -1477,6 +1543,19 @@ fn full_options() -> Vec<Script> {
             }
         }
     }
+    v
+}
+
+/// Readiness that regresses after the first Ready(Ok), alone and after an initial Pending.
+fn regress_options() -> Vec<Script> {
+    let mut v = vec![];
+    for regress in 1..=2u8 {
+        for ready_pend in 0..=1u8 {
+            v.push(Script { regress, ready_pend, ..Default::default() });
+        }
+    }
+    v.push(Script { ready_pend: 1, ..Default::default() });
+    v.push(Script { ready_err: true, ..Default::default() });
     v
 }
 
@@ -1699,6 +1778,12 @@ fn run(args: &Args, c12: bool) -> i32 {
         let d = if thorough { 3 } else { 2 };
         parts.extend(mcutil::par_map(args.threads, &ch, |_, (a, b)| service_part(&shallow[*a..*b], &opts, d, c12, prop)));
     }
+    // readiness that regresses between two polls (no call in between), deviation-bounded
+    {
+        let opts = regress_options();
+        let d = if thorough { 3 } else { 2 };
+        parts.extend(mcutil::par_map(args.threads, &ch, |_, (a, b)| service_part(&shallow[*a..*b], &opts, d, c12, prop)));
+    }
     let shallow_runs: u64 = parts.iter().map(|p| p.runs).sum();
     rep.set("service_trees_full_product", shallow.len());
     rep.set("service_runs_full_product", shallow_runs);
@@ -1709,6 +1794,10 @@ fn run(args: &Args, c12: bool) -> i32 {
     let ch = chunked(deep.len());
     let before: u64 = parts.iter().map(|p| p.runs).sum();
     parts.extend(mcutil::par_map(args.threads, &ch, |_, (a, b)| service_part(&deep[*a..*b], &opts_deep, dev3, c12, prop)));
+    {
+        let opts = regress_options();
+        parts.extend(mcutil::par_map(args.threads, &ch, |_, (a, b)| service_part(&deep[*a..*b], &opts, dev3, c12, prop)));
+    }
     let after: u64 = parts.iter().map(|p| p.runs).sum();
     rep.set("service_trees_deviation_bounded", deep.len());
     rep.set("service_runs_deviation_bounded", after - before);
